@@ -55,6 +55,7 @@ def run(prog, chk):
     transform_names(prog, chk)
     index_is_position(prog, chk)
     formatter_cast_guarded(prog, chk)
+    formatter_trims_one_character_class_at_a_time(prog, chk)
     endpoints_overwritten_only_when_absent(prog, chk)
     X.check_sinks(prog, chk)
     X.check_readers(prog, chk)
@@ -98,6 +99,41 @@ def _derives_from_get_attr(body, op, key, depth=8):
     return False
 
 
+PRESENCE_PRESERVING = ("is_none", "is_some", "as_ref", "as_deref", "as_mut", "clone", "cloned", "copied", "deref", "borrow", "has_attr", "contains_key")
+
+
+def _presence_test(body, op, key_is, depth=8):
+    """does the operand tell whether the attribute selected by key_is(key operand) is *present* - it derives from
+    get_attr / attrs.get of that key through operations that keep Some as Some (no parse, no and_then, no filter)?"""
+    if depth <= 0:
+        return False
+    o = R.origin(body, op, carriers={})
+    if o[0] == "call" and "fn" in o[2]:
+        c = Callee(o[2]["fn"])
+        last = c.path.split("::")[-1]
+        if last in ("get_attr", "get", "has_attr", "contains_key") and len(o[2]["args"]) >= 2 and key_is(o[2]["args"][1]):
+            return True
+        if last in PRESENCE_PRESERVING and o[2]["args"]:
+            return _presence_test(body, o[2]["args"][0], key_is, depth - 1)
+        return False
+    if o[0] == "rv":
+        rv = o[1]
+        if rv.get("k") == "discr":
+            return _presence_test(body, {"c": list(rv["place"]) if isinstance(rv["place"], (list, tuple)) else rv["place"]}, key_is, depth - 1)
+        if rv.get("k") == "unop" and rv.get("op") == "Not":
+            return _presence_test(body, rv["a"], key_is, depth - 1)
+        if rv.get("k") in ("use", "ref", "cast"):
+            src = rv.get("op") or ({"c": list(rv["place"])} if rv.get("place") else None)
+            return src is not None and _presence_test(body, src, key_is, depth - 1)
+    if o[0] in ("field", "unknown") and o[1] and isinstance(o[1], tuple) and o[1][1]:
+        # a component of a temporary tuple `(get_attr(k), delta)`
+        ch = body.chase_place((o[1][0], tuple(o[1][1])))
+        if ch[0] == "call":
+            fake = {"c": [ch[2]["dest"][0], []]}
+            return _presence_test(body, fake, key_is, depth - 1)
+    return False
+
+
 def endpoints_overwritten_only_when_absent(prog, chk):
     """a line's end points may be written with units or percentages (plain SVG): set_position_attrs replaces x1/y1/x2/y2
     only under a test of that attribute itself (absent -> derived value; present and numeric -> moved by dx/dy); a
@@ -112,16 +148,26 @@ def endpoints_overwritten_only_when_absent(prog, chk):
             continue
         k = R.origin(b, t["args"][1], carriers=dict(R.CARRIERS))
         key = k[1].get("str") if k[0] == "const" else None
-        if key not in ("x1", "y1", "x2", "y2"):
+        if key is not None and key not in ("x1", "y1", "x2", "y2"):
             continue
+        if key is None:
+            # a key that comes out of a table-driven loop: the evaluated keys decide whether this is an end-point write
+            names = _evaluated_keys(prog, b, "set_attr", t.get("line")) if "{closure" not in b.path else None
+            if not names or not (set(names) & {"x1", "y1", "x2", "y2"}):
+                continue
+            kl = R.origin_local(b, t["args"][1])
+            key_is = (lambda o, kl=kl: kl is not None and R.origin_local(b, o) == kl)
+            key = "/".join(names)
+        else:
+            key_is = (lambda o, key=key: (lambda kk: kk[0] == "const" and kk[1].get("str") == key)(R.origin(b, o, carriers=dict(R.CARRIERS))))
         n += 1
         guarded = False
         for (a, x) in D.dominating_edges(b, bb):
             tt = b.term(a)
-            if tt["k"] == "switch" and _derives_from_get_attr(b, tt["op"], key):
+            if tt["k"] == "switch" and _presence_test(b, tt["op"], key_is):
                 guarded = True
         chk.ob(guarded, "A13.endpoint-overwrite", f"set_position_attrs:{key}", b.where(bb, t.get("line")), f"`{key}` is written under a test of the `{key}` attribute itself", f"set_position_attrs writes `{key}` under conditions that do not test the `{key}` attribute itself (e.g. only the parsed position): a value that is present but not a plain number - `{key}=\"100%\"`, a length with a unit, a still unresolved reference - counts as absent and is overwritten")
-    chk.floor("A13.endpoint-overwrite", n, 8, "set_attr of a line end point in set_position_attrs")
+    chk.floor("A13.endpoint-overwrite", n, 2, "set_attr of a line end point in set_position_attrs")
 
 
 def filter_closed(prog, chk):
@@ -329,6 +375,22 @@ def index_is_position(prog, chk):
     # a path header -> increment that avoids every push
     leak = incs[0] in b.reach([h], avoid=pushes)
     chk.ob(not leak, "A13.index-position", "from_reader", b.where(h), f"every pass that advances the event counter pushes an event first ({len(pushes)} push sites)", "from_reader can advance the event index without storing the event it read (an event kind is dropped): `index` no longer equals the position in the vector, so the content slices taken by inner_events()/all_events() are shifted - text is lost and children are hoisted out of their parents")
+
+
+def formatter_trims_one_character_class_at_a_time(prog, chk):
+    """fstr removes trailing zeros of the *fraction* and then a trailing point: each trim_end_matches / trim_matches in
+    it is given a single character.  Given a set of characters ('0' and '.' at once) the trim runs on through the point
+    into the integer digits: 10.0004 -> "10.000" -> "1"."""
+    b = prog.body("svgdx::types::fstr")
+    chk.touch(b)
+    sites = b.call_sites(lambda c: c.path.split("::")[-1] in ("trim_end_matches", "trim_matches", "trim_start_matches", "strip_suffix") and ("str" in c.path.lower() or "string" in c.path.lower()))
+    if not sites:
+        chk.undecided("A14.formatter-trim", "fstr", b.where(), "fstr no longer trims with trim_end_matches: how trailing zeros are removed is not recognisable")
+        return
+    for k, (bb, t, c) in enumerate(sites):
+        pat_ty = (c.targs or [""])[-1] if c.targs else ""
+        one_char = pat_ty == "char" or c.inst.endswith("<char>") or "::<char>" in c.inst
+        chk.ob(one_char, "A14.formatter-trim", f"fstr:{c.path.split('::')[-1]}#{k}", b.where(bb, t.get("line")), "the trim pattern is a single character", f"fstr trims with a pattern of type `{pat_ty or c.inst}` (a set of characters, a closure or a string): after the fraction's zeros it can go on through the decimal point into the integer part - a value that rounds to a multiple of ten loses its zeros (10.0004 becomes \"1\")")
 
 
 def formatter_cast_guarded(prog, chk):
